@@ -117,3 +117,64 @@ func symbolTokens(s string) []string {
 	f := strings.FieldsFunc(s, func(r rune) bool { return r == '(' || r == ')' || r == ' ' })
 	return f
 }
+
+// reindexQuant rewrites a single-variable quantifier body in which the bound variable k is used to index rows only
+// through one common offset X, i.e. as (select row (+ X k)): substituting k := j - X (a bijection on the integers, so
+// the formula is equivalent) turns every such read into (select row j). Triggers of that shape match any read of the
+// row, whereas (+ X k) is lost as soon as the solver normalises arithmetic in the ground term.
+// Returns the body unchanged when the shape does not apply.
+func reindexQuant(body, k string) string {
+	// collect offsets X of subterms "(+ X k)"
+	suffix := " " + k + ")"
+	var offs []string
+	for i := 0; i+3 <= len(body); i++ {
+		if !strings.HasPrefix(body[i:], "(+ ") {
+			continue
+		}
+		end := matchParen(body, i)
+		if end < 0 {
+			continue
+		}
+		t := body[i : end+1]
+		if !strings.HasSuffix(t, suffix) {
+			continue
+		}
+		x := strings.TrimSpace(t[3 : len(t)-len(suffix)])
+		if x == "" || strings.Contains(x, k) {
+			continue
+		}
+		// x must be a single term (atom or one parenthesised term)
+		if parts := splitTopLevel(x); len(parts) != 1 {
+			continue
+		}
+		offs = append(offs, x)
+	}
+	if len(offs) == 0 {
+		return body
+	}
+	x := offs[0]
+	for _, o := range offs {
+		if o != x {
+			return body
+		}
+	}
+	const mark = "\x00IDX\x00"
+	out := strings.ReplaceAll(body, "(+ "+x+" "+k+")", mark)
+	// remaining occurrences of k (guards etc.) become (- k x)
+	var b strings.Builder
+	for i := 0; i < len(out); {
+		if strings.HasPrefix(out[i:], k) {
+			j := i + len(k)
+			prevOK := i == 0 || out[i-1] == ' ' || out[i-1] == '('
+			nextOK := j >= len(out) || out[j] == ' ' || out[j] == ')'
+			if prevOK && nextOK {
+				b.WriteString("(- " + k + " " + x + ")")
+				i = j
+				continue
+			}
+		}
+		b.WriteByte(out[i])
+		i++
+	}
+	return strings.ReplaceAll(b.String(), mark, k)
+}
